@@ -72,6 +72,10 @@ CLAIMED = {
  'C18': dict(tech="TLC trace validation of the refinement obligation WhiteDES(tables(K)).enc(B) = DES_K(B) against the TLA+ transcription of FIPS 46-3 (not against crysp.des); each generated table network is a program evaluated on a basis of blocks",
              text="Keys: zero, ones, weak and semi-weak keys, pairs differing only in parity bits, walking-one and random keys (8 quick / 150 thorough); per key the table network is generated by the library and evaluated on all 64 single-bit blocks, zero, ones and random blocks; every T-box is checked to be a total byte map (16 x 12 x 256) and M1/M2/M3 to be identical for all keys.  Keys and blocks are sampled: the 2^64 x 2^64 space is out of reach.",
              ref="DESIGN.md section 7 C18"),
+
+ 'C19': dict(tech="TLC: TLSH distance axioms model-checked over all single-field digest differences; TLC trace validation of TLSH digests / None, reloads and distances in every calling form, and of Nilsimsa digests, byte cuts and distances, against TLA+ transcriptions of the TLSH reference semantics and Nilsimsa 0.2.4",
+             text="All 3 x 5 x 2 TLSH configurations; data lengths around the gates (0, 4, 49, 50, 51, 255, 256, 257, 700, ...), content classes incl. constant and two-valued data, force both ways, the module singleton; from_hash reload (bytes and header fields/code); distances object/object, bytes/bytes, mixed, both orders, distance_to.  Nilsimsa: targets, lengths 0..6 and longer, every byte cut, Hamming distance both orders.  Declared exception: the Pearson table is pinned from the repository.",
+             ref="DESIGN.md section 7 C19"),
 }
 PENDING = "check not built yet in this tree (specification modules are being written; see DESIGN.md section 12 build order) - not claimed until its quick command runs clean"
 def main():
